@@ -14,7 +14,7 @@ MODULE = "prqlc/prqlc/src/semantic/module.rs"
 LINEAGE = "prqlc/prqlc/src/ir/pl/lineage.rs"
 IDENT = "prqlc/prqlc-parser/src/parser/pr/ident.rs"
 
-LABELS = ["FD1", "FD2", "FD3"]
+LABELS = ["FD1", "FD2", "FD3", "FD4"]
 FUNCTIONS = ["declare_frame_column"]
 RLIMIT = 60
 
@@ -25,6 +25,8 @@ ASSUMED = [
              "HashSet<String> of LineageColumn::All is opaque; Lineage::find_input is external: Some(input) exactly for an input with that id; String::clone / to_string keep the characters",
      "keys": ["struct NameMap", "fn view", "fn insert", "struct StrSet", "fn find_input", "spec fn input_with_id", "fn clone_string", "fn str_to_string"]},
 ]
+ASSUMED.append({"what": "FD4 is a SYNTACTIC row (like the frame units): it states where the statements `namespace.redirects.push(..)` of insert_frame stand - all inside the loop over "
+                "lineage.columns - not what they do; a namespace made resolvable by other means is not seen", "keys": []})
 TRUSTED = [
     "oracle (C10): after a transform, the columns that can be named are the columns of its frame: a named column declares its own name as that column (and nothing else); "
     "a star declares only the inference placeholder `_infer` of its input - never a concrete name - and only when its input exists in this frame; an unnamed column declares "
@@ -101,4 +103,18 @@ def build(X):
               "        // an unnamed column declares nothing\n"
               "        (*column is Single && column->Single_name is None) ==> final(ns).names.view() == old(ns).names.view(), // @FD3\n"
               "{\n    " + f.text + "\n}\n")
-    return PRELUDE + ident.text + "\n" + lc.text + "\n" + li.text + "\n" + SHIMS + f.text + "\n} // verus!\nfn main() {}\n"
+    # ---- FD4 (syntactic row, like the frame units): WHERE insert_frame makes a namespace `this.<input>` resolvable - the statements that push a redirect - all lie inside the
+    # loop over the COLUMNS of the lineage (an input none of whose columns is in the frame gets no namespace, so `a.x` after `select {b.y}` finds nothing to be inferred from)
+    code = re.sub(r"//[^\n]*", lambda mm: " " * len(mm.group(0)), src)
+    pushes = [mm.start() for mm in re.finditer(r"\bnamespace\s*\.redirects\s*\.push\(", code)]
+    ml = re.search(r"for \(col_index, column\) in lineage\.columns\.iter\(\)\.enumerate\(\) \{", code)
+    if not pushes or not ml:
+        raise ExtractionError("insert_frame: `namespace.redirects.push(..)` / the loop `for (col_index, column) in lineage.columns.iter().enumerate()` not found")
+    ctoks = code_tokens(code)
+    kb = next(i for i, t in enumerate(ctoks) if t[1] == ml.end() - 1)
+    lo, hi = ml.end(), ctoks[match_brace(code, ctoks, kb)][1]
+    inside = all(lo <= q < hi for q in pushes)
+    f.rewrites.append({"rule": "table", "what": "row FD4: %d statement(s) `namespace.redirects.push(..)` in insert_frame, %s inside the loop over lineage.columns" % (len(pushes), "all" if inside else "NOT all")})
+    fd4 = ("// a namespace for an input is made resolvable only while a column of that input is being declared\n"
+           "pub open spec fn namespaces_follow_columns() -> bool { %s }\nproof fn fd4_row() { assert(namespaces_follow_columns()); } // @FD4\n" % ("true" if inside else "false"))
+    return PRELUDE + ident.text + "\n" + lc.text + "\n" + li.text + "\n" + SHIMS + f.text + fd4 + "\n} // verus!\nfn main() {}\n"
